@@ -3,6 +3,7 @@
   (The ServerStream / unary transport-stream emission theorems are added in Goat/Props/C04b.lean.)
 -/
 import Goat.Metadata
+import Goat.ServerStreamProofs
 namespace Goat.Props.C04
 open Goat Goat.Metadata
 
@@ -66,6 +67,64 @@ theorem bad_b64_is_error (kvs : List KV) :
     · simp [hb] at hd
   · rintro ⟨h, hm, hb, hd⟩
     exact ⟨h, hm, by unfold decValue; rw [isBinKey_lower]; simp [hb, hd]⟩
+
+/-! ### emission: which envelope carries the response metadata, and that the trailer carries all of it -/
+open Goat.ServerStream in
+/-- Response metadata is on at most the first envelope that leaves the stream, for every handler
+    program and every outcome of the transport writes. -/
+theorem headers_once_and_first (ops : List Op) (s : SS) (st : Status) (w : Bool) :
+    emitted s ops st w = [] ∨ ∃ e rest, emitted s ops st w = e :: rest ∧ ∀ x ∈ rest, metaOf x = [] :=
+  meta_only_on_first ops s st w
+
+open Goat.ServerStream in
+/-- Headers leave explicitly (SendHeader), carrying everything set so far plus SendHeader's argument … -/
+theorem headers_leave_with_sendHeader (sets : List MD) (md : MD) (rest : List Op) (st w) :
+    ∃ tl, emitted {} (sets.map .setHeader ++ .sendHeader md true :: rest) st w =
+      { id := 0, header := some (hdr {} (kvOf (sets ++ [md]))) } :: tl := by
+  simpa using headers_with_sendHeader {} rfl sets md rest st w
+
+open Goat.ServerStream in
+/-- … or with the first response message … -/
+theorem headers_leave_with_first_message (sets : List MD) (b : Bytes) (rest : List Op) (st w) :
+    ∃ tl, emitted {} (sets.map .setHeader ++ .sendMsg b true :: rest) st w =
+      { id := 0, header := some (hdr {} (kvOf sets)), body := some b } :: tl := by
+  simpa using headers_with_first_message {} rfl sets b rest st w
+
+open Goat.ServerStream in
+/-- … or together with the final status. -/
+theorem headers_leave_with_trailer (sets : List MD) (st : Status) :
+    emitted {} (sets.map .setHeader) st true =
+      [{ id := 0, header := some (hdr {} (kvOf sets)), status := some st, trailer := some (kvOf []) }] := by
+  simpa using headers_with_trailer {} rfl rfl sets st
+
+open Goat.ServerStream in
+/-- The trailer envelope carries the join of all SetTrailer arguments in call order, also on error return. -/
+theorem trailer_md_complete (ops : List Op) (st : Status) :
+    ∃ pre e, emitted {} ops st true = pre ++ [e] ∧ e.trailer = some (kvOf (trailerArgs ops)) ∧ e.status = some st := by
+  simpa using ServerStream.trailer_md_complete ops {} rfl st
+
+/-- what `kvOf` (ToKeyValue of the joined arguments) means for the receiver: per key, the values of all
+    calls in call order -/
+theorem kvOf_decodes (mds : List MD) (h : BinWF (join mds)) :
+    ∃ md', toMetadata (ServerStream.kvOf mds) = some md' ∧
+      ∀ k', Metadata.get md' k' = ((join mds).filter (fun p => lower p.1 = k')).flatMap (·.2) :=
+  md_roundtrip (join mds) h
+
+/-- unaryServerTransportStream: SetHeader/SendHeader accumulate with metadata.Join until SendHeader marks
+    the headers sent; later calls fail and change nothing. -/
+def utsStep (st : List MD × Bool) (op : MD × Bool) : List MD × Bool :=
+  if st.2 then st else (st.1 ++ [op.1], op.2)
+
+theorem uts_collects (ops : List (MD × Bool)) (h : ∀ o ∈ ops, o.2 = false) :
+    (ops.foldl utsStep ([], false)).1 = ops.map (·.1) := by
+  suffices ∀ acc, (ops.foldl utsStep (acc, false)).1 = acc ++ ops.map (·.1) by simpa using this []
+  induction ops with
+  | nil => simp
+  | cons o t ih =>
+    intro acc
+    have ho : o.2 = false := h o (by simp)
+    simp only [List.foldl, utsStep, Bool.false_eq_true, ite_false, ho]
+    rw [ih (fun x hx => h x (by simp [hx]))]; simp
 
 /-! ### non-vacuity -/
 -- two keys, one binary with NUL / 0xFF / empty values, mixed letter case
